@@ -131,7 +131,10 @@ def _setup():
     import mtx_work as M
     from mtfx import tripwires as T
     T.MT_DIR[0] = os.path.dirname(os.path.abspath(monkeytype.__file__)) + os.sep
-    _ENV.update(dir=d, M=M, T=T, path=M.__file__)
+    def default_filter():
+        import monkeytype.config as cfg
+        return cfg.default_code_filter
+    _ENV.update(dir=d, M=M, T=T, path=M.__file__, default_filter=default_filter)
     return _ENV
 
 
@@ -191,7 +194,7 @@ def hook_workload(sc, traced):
             obs.append([v is box[0] for v in M.g_yield()])
         elif role.startswith("elem_"):
             c = {"elem_list": lambda: [box[0]], "elem_tuple": lambda: (box[0], 1), "elem_dict_value": lambda: {"k": box[0]},
-                 "elem_dict_key": lambda: {box[0]: 1}, "elem_set": lambda: {box[0]},
+                 "elem_dict_key": lambda: {"alpha": 0, box[0]: 1, "omega": "z"}, "elem_set": lambda: {box[0], "omega"},
                  "elem_defaultdict": lambda: collections.defaultdict(int, {"k": box[0]})}[role]()
             obs.append(_call_kind(M, kind, c))
         elif role == "global_same_name":
@@ -288,13 +291,22 @@ def run_life_scenario(sc):
             if f == "log":
                 idx.add(k)
         logger = Logger(idx, sc["flushFails"])
-        prev = other_profiler if sc["prev"] == "other" else None
-        sys.setprofile(prev)
+        sys.setprofile(other_profiler if sc.get("prev0", sc.get("prev")) == "other" else None)
         path = env["path"]
+        cm = None
+        for h in sc["hist"]:
+            # the context manager object is made first; the program may change the profiler before it enters the block
+            if h["op"] == "Create" and traced and entered:
+                cm = mtt.trace_calls(logger, 0, lambda code: code.co_filename == path)
+            elif h["op"] == "SetBefore":
+                sys.setprofile(other_profiler if h["x"] == "other" else None)
+            elif h["op"] == "Enter":
+                break
+        prev = sys.getprofile()          # the profiler in place when the block is entered
         try:
             try:
                 if traced and entered:
-                    with mtt.trace_calls(logger, 0, lambda code: code.co_filename == path):
+                    with (cm if cm is not None else mtt.trace_calls(logger, 0, lambda code: code.co_filename == path)):
                         program(obs)
                 else:
                     program(obs)
@@ -337,9 +349,17 @@ def run_ambient_scenario(sc):
                 obs.append(M.snapshot_prog())
             elif sc["ambient"] == "closure_lifetime":
                 obs.append(M.gc_prog(3))
+            elif sc["ambient"] == "odd_file_names":
+                # code the program compiles itself, under file names a filter may not expect (the DEFAULT filter is in force)
+                for fn in ("", " ", ".", "<string>", "<>", "relative.py", os.path.join("no", "such", "dir", "x.py"), "trailing" + os.sep,
+                           "a\nb.py", "~", os.sep, "\u00e9t\u00e9.py", "x" * 300 + ".py"):
+                    ns = {}
+                    exec(compile("def q(x):\n    return [x, x]\nr = q(%d)\n" % len(fn), fn, "exec"), ns)
+                    obs.append(ns["r"])
         try:
             if traced:
-                with mtt.trace_calls(logger, 0, lambda code: code.co_filename == path, sc["rate"] or None):
+                flt = (lambda code: code.co_filename == path) if sc["ambient"] != "odd_file_names" else env["default_filter"]()
+                with mtt.trace_calls(logger, 0, flt, sc["rate"] or None):
                     body()
             else:
                 body()
@@ -480,14 +500,14 @@ def run_all(scs, procs=8):
 def main(pid, tier, seed, replay=None):
     core.use_repo()
     run = core.Run(pid, tier, seed)
-    devs = core.model_deviations(["Dev_FlushEscapes"])
+    devs = core.model_deviations(["Dev_FlushEscapes", "Dev_PrevAtCreation"])
     plan = []
     if replay:
         with open(replay) as fh:
             scs = [dict(json.load(fh)["case"], tid=1)]
         mc = None
     else:
-        cfg = "SPECIFICATION Spec\nCONSTANTS\n  MaxCalls = %d\n  Dev_FlushEscapes = %s\n%sCHECK_DEADLOCK FALSE\n"
+        cfg = "SPECIFICATION Spec\nCONSTANTS\n  MaxCalls = %d\n  Dev_FlushEscapes = %s\n  Dev_PrevAtCreation = FALSE\n%sCHECK_DEADLOCK FALSE\n"
         inv = "INVARIANT Contained\nINVARIANT Restored\nINVARIANT FlushedOnce\nINVARIANT SameOutcome\n"
         maxc = 3 if tier == "quick" else 5
         mc = tlc.run_tlc("MTInterfereMC", cfg_text=cfg % (maxc, "FALSE", inv), workers=8, timeout=1200)
@@ -514,11 +534,11 @@ def main(pid, tier, seed, replay=None):
         plan.append({"family": "hooks: function kind x object role x protocol x k (exhaustive product)", "scenarios": len(scs)})
         n0 = len(scs)
         for b in life:
-            scs.append({"type": "life", "hist": b["hist"], "flushFails": b["flushFails"], "prev": b["prev"]})
+            scs.append({"type": "life", "hist": b["hist"], "flushFails": b["flushFails"], "prev0": b["prev0"]})
         plan.append({"family": "lifecycle: every behaviour of MTInterfere (pre-installed profiler x per-call log/inspection "
                                "faults, <= %d calls x flush fault x exit by return/exception)" % maxc, "scenarios": len(scs) - n0})
         n0 = len(scs)
-        for amb in ("rng", "locals_snapshot", "closure_lifetime"):
+        for amb in ("rng", "locals_snapshot", "closure_lifetime", "odd_file_names"):
             for rate in (0, 1, 2, 5, 1000):
                 scs.append({"type": "ambient", "ambient": amb, "rate": rate})
         plan.append({"family": "ambient state: global random stream / locals() snapshot / lifetime of run-time functions x "
